@@ -55,7 +55,7 @@ def expected(body):
         d = wire.decode(body)
     except Exception:
         return ('junk',)
-    if d['ft'].startswith('UNKNOWN') or d['ft'] == 'EXT':
+    if d['ft'].startswith('UNKNOWN') or d['ft'] == 'EXT' or d['ft'] not in wire.TYPES.values():
         return ('junk',)
     return ('valid', (d['ft'], d['sid'], d['d'], d['md'], d.get('n', 0)))
 
@@ -80,8 +80,9 @@ def body_for(length, salt):
         return wire.encode('PAYLOAD', sid=9, flags=wire.F_NEXT, md=md, d=bytes([1 + salt % 200] * (length - 9 - len(md))))
     if k == 1:
         return wire.encode('REQUEST_RESPONSE', sid=11, d=bytes([3] * (length - 6)))
-    # unknown frame type 0x3E with arbitrary content: undecodable
-    return (2).to_bytes(4, 'big') + bytes([(0x3E << 2) & 0xFF, 0]) + bytes([0xEE] * (length - 6))
+    # unknown frame type (0x3E, the reserved extension type 0x3F, 0x00, 0x0F) with arbitrary content: undecodable
+    t = (0x3E, 0x3F, 0x00, 0x0F)[salt % 4]
+    return (2).to_bytes(4, 'big') + bytes([(t << 2) & 0xFF, 0]) + bytes([0xEE] * (length - 6))
 
 
 def stream_bytes(lens, salt):
